@@ -30,6 +30,8 @@ UNITS = [
       loops="contracts/unicode_isvalid.loops.json"),
     U("String.fromHex", "h_fromHex", None, replace=[S_RESIZE, S_MUT, MC], reach=["fromHex.return"],
       loops="contracts/string_fromhex.loops.json", funcs=["String::fromHex"]),
+    U("String.fromHex.2bytes", "h_fromHex_bounded", None, replace=[S_RESIZE, S_MUT, MC], reach=["fromHex_bounded.return"], kind="bounded",
+      bound="2 input bytes (content symbolic); no loop contract", funcs=["String::fromHex"], cbmc=["--unwind", "4", "--unwinding-assertions"]),
     U("String.fromBase64.safety", "h_fromBase64_safety", None, replace=[S_RESIZE, S_RESERVE, S_MUT, MC],
       reach=["fromBase64_safety.return"], loops="contracts/string_frombase64.loops.json", funcs=["String::fromBase64"]),
 ] + [
